@@ -590,11 +590,19 @@ func headerMatches(v reflect.Value, texts []string, s oas.M, doc *oas.Doc) strin
 type strictBody struct {
 	r      io.Reader
 	closed bool
+	ctx    context.Context // response bodies: the context of the request they answer
 }
 
 func (b *strictBody) Read(p []byte) (int, error) {
 	if b.closed {
 		return 0, fmt.Errorf("http: read on closed response body")
+	}
+	if b.ctx != nil {
+		// net/http's transport fails the body of a response whose request
+		// context has ended, whatever is still unread
+		if err := b.ctx.Err(); err != nil {
+			return 0, err
+		}
 	}
 	return b.r.Read(p)
 }
@@ -640,7 +648,7 @@ func (t *tap) do(r *http.Request) (*http.Response, error) {
 		hdr.Set("Content-Encoding", "gzip")
 		hdr.Del("Content-Length")
 	}
-	return &http.Response{StatusCode: w.Status, Status: strconv.Itoa(w.Status), Header: hdr, Body: &strictBody{r: bytes.NewReader(body)}, Request: r, Proto: "HTTP/1.1", ProtoMajor: 1, ProtoMinor: 1}, nil
+	return &http.Response{StatusCode: w.Status, Status: strconv.Itoa(w.Status), Header: hdr, Body: &strictBody{r: bytes.NewReader(body), ctx: r.Context()}, Request: r, Proto: "HTTP/1.1", ProtoMajor: 1, ProtoMinor: 1}, nil
 }
 
 func (c *Ctx) newClient(t *tap) (reflect.Value, bool) {
